@@ -310,7 +310,16 @@ def run_case(case, ctx):
                     list(gen(np.asarray(hx), hm, hn, ho))
                 except Exception:
                     pass
-        got = list(gen(x_lib, method, n, order))
+        if (n + 2 * order) % 4 == 1:
+            # the sequence is asked for, then another one from the same generator (other point, method, n, order), and only then is
+            # the first one consumed (zip(gen(x1), gen(x2)), a stored iterator): it is still the sequence that was asked for
+            it_first = gen(x_lib, method, n, order)
+            it_other = gen(np.asarray(-12.5), 'forward' if method != 'forward' else 'central', 3 if n != 3 else 1, 2 if order != 2 else 4)
+            got = list(it_first)
+            list(it_other)
+            ctx.count('sequence_consumed_after_another_was_requested')
+        else:
+            got = list(gen(x_lib, method, n, order))
     except Exception as exc:
         ctx.reject('generator_raised', observed=repr(exc))
         return
